@@ -19,14 +19,19 @@ struct Container {
 
 static const char *UUIDISH = "12345678-1234-4234-8234-123456789abc";   // looks like an id, is nobody's id
 
+#ifndef VH_NAMES
+#define VH_NAMES 9
+#endif
 static std::string pick_name() {
-    switch (nixsym_choice("name", 9)) {
-    case 0: return "a"; case 1: return "b"; case 2: return "A"; case 3: return "a ";
-    case 4: return ".."; case 5: return UUIDISH; case 6: return ""; case 7: return "a/b";
-    default: { // one symbolic character
+    // quick tier: the first 6 candidates
+    switch (nixsym_choice("name", VH_NAMES)) {
+    case 0: return "a"; case 1: return "b"; case 2: return UUIDISH; case 3: return ""; case 4: return "a/b";
+    case 5: { // one symbolic character
         std::string s(1, 'x'); uint8_t c = nixsym_u8("ch");
         nixsym_assume(c == 'a' || c == 'b' || c == '/' || c == 'c');
         s[0] = (char)c; return s; }
+    case 6: return "A"; case 7: return "a ";
+    default: return "..";
     }
 }
 static bool legal(const std::string &n) { return !n.empty() && n.find('/') == std::string::npos; }
